@@ -40,12 +40,14 @@ VARIABLES
   lastw,     \* lastw[d] : cver at which d was last committed
   tx,        \* per explicit transaction: [st, start, snap, ws, evq]
   published, \* sequence of notifications handed to the event bus: <<[d, k]>>
+  subs,      \* set of currently subscribed bus subscribers (every one of them receives every notification
+             \* published while it is subscribed, whatever other subscribers came and went)
   nops,      \* number of API calls so far (bound)
   chist,     \* ghost: committed write transactions [start, at, docs]
   hist       \* schedule (generation only; hidden by VIEW)
 
-vars == <<db, cver, lastw, tx, published, nops, chist, hist>>
-view == <<db, cver, lastw, tx, published, nops, chist>>
+vars == <<db, cver, lastw, tx, published, subs, nops, chist, hist>>
+view == <<db, cver, lastw, tx, published, subs, nops, chist>>
 
 \* notifications of one document-level commit
 Ev(d, k) == IF Branchable THEN <<[d |-> d, k |-> k], [d |-> "_collection", k |-> "collection"]>> ELSE <<[d |-> d, k |-> k]>>
@@ -54,7 +56,7 @@ TxInit == [st |-> "idle", start |-> 0, snap |-> [d \in Docs |-> Absent],
            ws |-> [d \in Docs |-> NoWrite], evq |-> <<>>]
 
 Init == /\ db = [d \in Docs |-> Absent] /\ cver = 0 /\ lastw = [d \in Docs |-> 0]
-        /\ tx = [t \in Txns |-> TxInit] /\ published = <<>> /\ nops = 0 /\ chist = <<>> /\ hist = <<>>
+        /\ tx = [t \in Txns |-> TxInit] /\ published = <<>> /\ subs = {} /\ nops = 0 /\ chist = <<>> /\ hist = <<>>
 
 View(t) == [d \in Docs |-> IF tx[t].ws[d] # NoWrite THEN tx[t].ws[d] ELSE tx[t].snap[d]]
 Live(s) == s >= 0
@@ -73,24 +75,29 @@ Count == nops' = nops + 1
 Begin(t) ==
   /\ tx[t].st = "idle"
   /\ tx' = [tx EXCEPT ![t] = [TxInit EXCEPT !.st = "open", !.start = cver, !.snap = db]]
-  /\ UNCHANGED <<db, cver, lastw, published, chist>> /\ Count /\ Log([op |-> "begin", t |-> t])
+  /\ UNCHANGED <<db, cver, lastw, published, subs, chist>> /\ Count /\ Log([op |-> "begin", t |-> t])
 
 TCreate(t, d, r) ==
   /\ tx[t].st = "open" /\ r = CreateRes(View(t)[d])
   /\ tx' = IF r = "ok" THEN [tx EXCEPT ![t].ws[d] = 0, ![t].evq = @ \o Ev(d, "create")] ELSE tx
-  /\ UNCHANGED <<db, cver, lastw, published, chist>> /\ Count /\ Log([op |-> "create", t |-> t, d |-> d])
+  /\ UNCHANGED <<db, cver, lastw, published, subs, chist>> /\ Count /\ Log([op |-> "create", t |-> t, d |-> d])
 TUpdate(t, d, v, r) ==
   /\ tx[t].st = "open" /\ r = UpdateRes(View(t)[d])
   /\ tx' = IF r = "ok" THEN [tx EXCEPT ![t].ws[d] = v, ![t].evq = @ \o Ev(d, "update")] ELSE tx
-  /\ UNCHANGED <<db, cver, lastw, published, chist>> /\ Count /\ Log([op |-> "update", t |-> t, d |-> d, v |-> v])
+  /\ UNCHANGED <<db, cver, lastw, published, subs, chist>> /\ Count /\ Log([op |-> "update", t |-> t, d |-> d, v |-> v])
+\* an update that changes no field still adds a document-level commit (and its notification)
+TTouch(t, d, r) ==
+  /\ tx[t].st = "open" /\ r = UpdateRes(View(t)[d])
+  /\ tx' = IF r = "ok" THEN [tx EXCEPT ![t].ws[d] = View(t)[d], ![t].evq = @ \o Ev(d, "update")] ELSE tx
+  /\ UNCHANGED <<db, cver, lastw, published, subs, chist>> /\ Count /\ Log([op |-> "touch", t |-> t, d |-> d])
 TDelete(t, d, r) ==
   /\ tx[t].st = "open" /\ r = DeleteRes(View(t)[d])
   /\ tx' = IF r = "ok" THEN [tx EXCEPT ![t].ws[d] = Deleted, ![t].evq = @ \o Ev(d, "delete")] ELSE tx
-  /\ UNCHANGED <<db, cver, lastw, published, chist>> /\ Count /\ Log([op |-> "delete", t |-> t, d |-> d])
+  /\ UNCHANGED <<db, cver, lastw, published, subs, chist>> /\ Count /\ Log([op |-> "delete", t |-> t, d |-> d])
 \* a query inside the transaction returns the live documents of  snapshot (+) own writes
 TQuery(t, rows) ==
   /\ tx[t].st = "open" /\ rows = Rows(View(t))
-  /\ UNCHANGED <<db, cver, lastw, tx, published, chist>> /\ Count /\ Log([op |-> "query", t |-> t])
+  /\ UNCHANGED <<db, cver, lastw, tx, published, subs, chist>> /\ Count /\ Log([op |-> "query", t |-> t])
 
 \* the other read paths of the API see the same view: listing document ids (collection.GetAllDocIDs) and
 \* fetching one document (collection.Get; a deleted or absent document is "not found" = -1)
@@ -98,10 +105,10 @@ Names(v) == {d \in Docs : v[d] # Absent}     \* GetAllDocIDs lists every primary
 GetRes(s) == IF Live(s) THEN s ELSE -1
 TIds(t, names) ==
   /\ tx[t].st = "open" /\ names = Names(View(t))
-  /\ UNCHANGED <<db, cver, lastw, tx, published, chist>> /\ Count /\ Log([op |-> "ids", t |-> t])
+  /\ UNCHANGED <<db, cver, lastw, tx, published, subs, chist>> /\ Count /\ Log([op |-> "ids", t |-> t])
 TGet(t, d, r) ==
   /\ tx[t].st = "open" /\ r = GetRes(View(t)[d])
-  /\ UNCHANGED <<db, cver, lastw, tx, published, chist>> /\ Count /\ Log([op |-> "get", t |-> t, d |-> d])
+  /\ UNCHANGED <<db, cver, lastw, tx, published, subs, chist>> /\ Count /\ Log([op |-> "get", t |-> t, d |-> d])
 
 Wrote(t) == {d \in Docs : tx[t].ws[d] # NoWrite}
 MustConflict(t) == \E d \in Wrote(t) : lastw[d] > tx[t].start
@@ -118,14 +125,14 @@ Commit(t, r) ==
            ELSE UNCHANGED <<cver, lastw, chist>>
         /\ published' = published \o tx[t].evq
      \/ /\ r = "conflict" /\ MayConflict(t)
-        /\ UNCHANGED <<db, cver, lastw, published, chist>>
-  /\ tx' = [tx EXCEPT ![t] = TxInit]
+        /\ UNCHANGED <<db, cver, lastw, published, subs, chist>>
+  /\ tx' = [tx EXCEPT ![t] = TxInit] /\ UNCHANGED subs
   /\ Count /\ Log([op |-> "commit", t |-> t])
 
 Discard(t) ==
   /\ tx[t].st = "open"
   /\ tx' = [tx EXCEPT ![t] = TxInit]
-  /\ UNCHANGED <<db, cver, lastw, published, chist>> /\ Count /\ Log([op |-> "discard", t |-> t])
+  /\ UNCHANGED <<db, cver, lastw, published, subs, chist>> /\ Count /\ Log([op |-> "discard", t |-> t])
 
 -----------------------------------------------------------------------------
 (* implicit transactions: one API call = begin; work; commit.  fault = TRUE: a storage operation of  *)
@@ -135,23 +142,33 @@ IApply(d, new, k, r, fault) ==
   THEN /\ db' = [db EXCEPT ![d] = new] /\ cver' = cver + 1 /\ lastw' = [lastw EXCEPT ![d] = cver + 1]
        /\ chist' = Append(chist, [start |-> cver, at |-> cver + 1, docs |-> {d}])
        /\ published' = published \o Ev(d, k)
-  ELSE UNCHANGED <<db, cver, lastw, published, chist>>
+  ELSE UNCHANGED <<db, cver, lastw, published, subs, chist>>
 ICreate(d, r, fault) == /\ (fault /\ r = "fault") \/ (~fault /\ r = CreateRes(db[d]))
                         /\ IApply(d, 0, "create", r, fault)
-                        /\ UNCHANGED tx /\ Count /\ Log([op |-> "create", t |-> 0, d |-> d])
+                        /\ UNCHANGED <<tx, subs>> /\ Count /\ Log([op |-> "create", t |-> 0, d |-> d])
 IUpdate(d, v, r, fault) == /\ (fault /\ r = "fault") \/ (~fault /\ r = UpdateRes(db[d]))
                            /\ IApply(d, v, "update", r, fault)
-                           /\ UNCHANGED tx /\ Count /\ Log([op |-> "update", t |-> 0, d |-> d, v |-> v])
+                           /\ UNCHANGED <<tx, subs>> /\ Count /\ Log([op |-> "update", t |-> 0, d |-> d, v |-> v])
+ITouch(d, r, fault) == /\ (fault /\ r = "fault") \/ (~fault /\ r = UpdateRes(db[d]))
+                       /\ IApply(d, db[d], "update", r, fault)
+                       /\ UNCHANGED <<tx, subs>> /\ Count /\ Log([op |-> "touch", t |-> 0, d |-> d])
 IDelete(d, r, fault) == /\ (fault /\ r = "fault") \/ (~fault /\ r = DeleteRes(db[d]))
                         /\ IApply(d, Deleted, "delete", r, fault)
-                        /\ UNCHANGED tx /\ Count /\ Log([op |-> "delete", t |-> 0, d |-> d])
+                        /\ UNCHANGED <<tx, subs>> /\ Count /\ Log([op |-> "delete", t |-> 0, d |-> d])
 IQuery(rows) == /\ rows = Rows(db)
-                /\ UNCHANGED <<db, cver, lastw, tx, published, chist>> /\ Count /\ Log([op |-> "query", t |-> 0])
+                /\ UNCHANGED <<db, cver, lastw, tx, published, subs, chist>> /\ Count /\ Log([op |-> "query", t |-> 0])
 
 IIds(names) == /\ names = Names(db)
-               /\ UNCHANGED <<db, cver, lastw, tx, published, chist>> /\ Count /\ Log([op |-> "ids", t |-> 0])
+               /\ UNCHANGED <<db, cver, lastw, tx, published, subs, chist>> /\ Count /\ Log([op |-> "ids", t |-> 0])
 IGet(d, r) == /\ r = GetRes(db[d])
-              /\ UNCHANGED <<db, cver, lastw, tx, published, chist>> /\ Count /\ Log([op |-> "get", t |-> 0, d |-> d])
+              /\ UNCHANGED <<db, cver, lastw, tx, published, subs, chist>> /\ Count /\ Log([op |-> "get", t |-> 0, d |-> d])
+
+\* subscribers come and go
+Subscribe(s) == /\ s \notin subs /\ subs' = subs \cup {s}
+                /\ UNCHANGED <<db, cver, lastw, tx, published, chist>> /\ Count /\ Log([op |-> "sub", t |-> 0, s |-> s])
+Unsubscribe(s) == /\ s \in subs /\ subs' = subs \ {s}
+                  /\ UNCHANGED <<db, cver, lastw, tx, published, chist>> /\ Count /\ Log([op |-> "unsub", t |-> 0, s |-> s])
+SubIds == {"s1", "s2", "s3", "s4"}
 
 -----------------------------------------------------------------------------
 Res == {"ok", "err"}
@@ -163,6 +180,9 @@ Next ==
      \/ IIds(Names(db)) \/ (\E d \in Docs : IGet(d, GetRes(db[d])))
      \/ \E d \in Docs, r \in Res : ICreate(d, r, FALSE) \/ IDelete(d, r, FALSE) \/ (\E v \in 1..MaxVal : IUpdate(d, v, r, FALSE))
      \/ IQuery(Rows(db))
+     \/ \E s \in SubIds : Subscribe(s) \/ Unsubscribe(s)
+     \/ \E t \in Txns, d \in Docs, r \in Res : TTouch(t, d, r)
+     \/ \E d \in Docs, r \in Res : ITouch(d, r, FALSE)
 Spec == Init /\ [][Next]_vars
 
 -----------------------------------------------------------------------------
